@@ -327,3 +327,54 @@ def k5(ctx):
                               "`%s.id` is committed after `%s` was added" % (tv, tv),
                               "_commit_tree is given `%s`, which is not the id of a tree added to the object store beforehand" % (src(a) if a is not None else "?")))
     return obs
+
+
+def _value_kind(ctx, fi, e) -> str:
+    """'bytes' | 'str' | '?' for an id/etag-valued expression (dulwich ids are bytes; the stores' etags are str)."""
+    if isinstance(e, ast.Attribute) and e.attr in ("id", "sha"):
+        return "bytes"
+    if isinstance(e, ast.Call) and isinstance(e.func, ast.Attribute):
+        if e.func.attr == "encode":
+            return "bytes"
+        if e.func.attr == "decode":
+            return "str"
+        if e.func.attr in ("_get_etag", "get_ctag") :
+            return "str"
+    return "?"
+
+
+@rule("C09", "K6", floor=3, kind="S",
+      desc="id comparisons compare like with like: a dulwich object id (bytes) is never compared with a store etag "
+           "(str) - such a comparison is constantly 'different'")
+def k6(ctx):
+    from ..dataflow import DefUse
+    obs = []
+    for fi in ctx.P.funcs_in_module("xandikos.store.git"):
+        cfg = ctx.cfg(fi)
+        du = None
+        for t in [n for n in cfg.nodes if n.kind == "test" and isinstance(n.ast, ast.Compare) and len(n.ast.ops) == 1 and isinstance(n.ast.ops[0], (ast.Eq, ast.NotEq))]:
+            sides = [t.ast.left, t.ast.comparators[0]]
+            kinds = []
+            for sd in sides:
+                k = _value_kind(ctx, fi, sd)
+                if k == "?" and isinstance(sd, ast.Name):
+                    du = du or DefUse(cfg)
+                    ks = {_value_kind(ctx, fi, d.value) for d in du.reaching(t, sd.id) if d.value is not None and not (isinstance(d.value, ast.Constant) and d.value.value is None) and not d.index}
+                    ks.discard("?")
+                    if len(ks) == 1:
+                        k = ks.pop()
+                kinds.append(k)
+            if "?" in kinds or not ("bytes" in kinds or "str" in kinds):
+                continue
+            obs.append(ctx.ob(kinds[0] == kinds[1], fi.qualname, where(fi, t), "`%s` compares %s with %s" % (src(t.ast), kinds[0], kinds[1]),
+                              "like with like", "`%s` compares a %s value with a %s value: the two are never equal, so the 'unchanged' case is never "
+                              "recognised (every no-op rewrite adds a commit) or the etag check always fails" % (src(t.ast), kinds[0], kinds[1])))
+    return obs
+
+
+@rule("C09", "K7", floor=9, kind="N",
+      desc="index, working tree and HEAD are updated by one writer at a time (same obligations as C05/L0): otherwise a "
+           "commit's tree drops another writer's member and its file is left untracked")
+def k7(ctx):
+    from .c05 import l0
+    return l0(ctx)
